@@ -36,7 +36,11 @@ IRenumbers == {[shape |-> x.shape, key |-> x.key,
                 tshape |-> [j \in DOMAIN Kept(x.key) |-> RegionShape(x.shape, x.key)[Kept(x.key)[j]]]] :
                  x \in {y \in Renumbers : Kept(y.key) # <<>>}}
 
+MemOrders == {[dims |-> d, layout |-> y, order |-> o, copy |-> c] :
+                d \in {<<3>>, <<1>>, <<2, 3>>, <<1, 3>>, <<3, 1>>, <<2, 1, 2>>, <<1, 1, 3>>, <<2, 2, 2>>, <<1, 2, 2>>},
+                y \in {"C", "F", "strided"}, o \in {"F", "C"}, c \in BOOLEAN}
 Stimuli == {[op |-> "wrap", a |-> a] : a \in UNION {Wraps(n) : n \in 1..4}}
+           \cup {[op |-> "memorder", a |-> a] : a \in MemOrders}
            \cup {[op |-> "renumber", a |-> a] : a \in Renumbers}
            \cup {[op |-> "irenumber", a |-> a] : a \in IRenumbers}
 
@@ -69,4 +73,8 @@ InverseLaw == (stim.op = "renumber") =>
                  \A r \in DOMAIN stim.a.subs :
                     IRenumberRow(stim.a.shape, stim.a.key, DropRow(stim.a.key, RenumberRow(stim.a.shape, stim.a.key, stim.a.subs[r])))
                       = stim.a.subs[r]
+\* a requested copy never shares; an array created in the requested order is handed back as it is when no copy is asked for
+MemOrderLaw == (stim.op = "memorder") =>
+                 /\ (stim.a.copy => ~MemOrder(stim.a).shares)
+                 /\ ((~stim.a.copy /\ stim.a.layout = stim.a.order) => MemOrder(stim.a).shares)
 =============================================================================
